@@ -335,6 +335,7 @@ class Sim:
         self.desc = []
         self.mgates = []
         self.stash = []  # (gate, bitstr, probability) of measure gates of earlier circuits of this run
+        self.handed = []  # (array object, copy, what) results handed out earlier: they belong to the caller and must not change later
 
     def bump(self, k, v=1):
         self.stats[k] = self.stats.get(k, 0) + v
@@ -472,6 +473,8 @@ class Sim:
         for q, b in zip(S, bs):
             self.known[q] = b
         self.last = (S, bs, post.copy())
+        self.hand_out(prob, 'measure_quantum_vector probabilities')
+        self.hand_out(post, 'measure_quantum_vector post-measurement state')
         self.psi = np.asarray(post)
         self.shape.append('m')
 
@@ -800,6 +803,7 @@ class Sim:
             raise Violation('bookkeeping', 'Circuit.apply_state', f'final state differs from the model run with the outcomes obtained at each measure gate (max dev {np.abs(out - psi).max() if out.shape == psi.shape else "shape"}): classical control / projection did not use the measurement made at that point of the circuit')
         self.log.add('run', w, [outcomes[id(x[2])] for x in self.desc if x[0] == 'measure'], np.round(out, 9) + 0.0)
         self.bump('circuit_runs')
+        self.hand_out(out, 'Circuit.apply_state result')
         # records of another circuit object of this process (stashed earlier) must not change when this one runs
         for (g, bs0, pr0) in self.stash:
             if list(g.bitstr or []) != bs0 or (pr0 is not None and (g.probability is None or np.abs(np.asarray(g.probability) - pr0).max() > 0)):
@@ -812,7 +816,24 @@ class Sim:
             self.bump('circuit_runs_with_shared_measure_gate')
         self.shape.append('r')
 
+    def hand_out(self, arr, what):
+        if isinstance(arr, np.ndarray):
+            self.handed.append((arr, arr.copy(), what))
+            if len(self.handed) > 40:
+                del self.handed[:10]
+
+    def check_handed_out(self):
+        for obj, cp, what in self.handed:
+            if obj.shape != cp.shape or not np.array_equal(obj, cp):
+                raise Violation('result_stability', what, f'an array returned earlier ({what}) was rewritten in place by a later operation')
+        if self.handed:
+            self.bump('handed_out_results_rechecked', len(self.handed))
+
     def step(self, world, i, op):
+        self._step(world, i, op)
+        self.check_handed_out()
+
+    def _step(self, world, i, op):
         k = op['op']
         if k == 'wipe':
             world.cache_wipe()
